@@ -317,7 +317,10 @@ def fn_to_sympy(
         if isinstance(sympy_expr, float):
             return sympy.Float(sympy_expr)
         if model_args is not None and len(model_args):
-            sympy_expr = sympy_expr.subs(dict(zip(fn_args, model_args, strict=True)))
+            # simultaneous: model names may equal the function's own argument names
+            sympy_expr = sympy_expr.subs(
+                dict(zip(fn_args, model_args, strict=True)), simultaneous=True
+            )
         return cast(sympy.Expr, sympy_expr)
 
     except (TypeError, ValueError, NotImplementedError) as e:
@@ -477,9 +480,12 @@ def _handle_expr(node: ast.expr, ctx: Context) -> sympy.Expr | None:
             elif isinstance(op, ast.LtE):
                 comparisons.append(prev_value <= right)
             elif isinstance(op, ast.Eq):
-                comparisons.append(prev_value == right)
+                comparisons.append(sympy.Eq(prev_value, right))
             elif isinstance(op, ast.NotEq):
-                comparisons.append(prev_value != right)
+                comparisons.append(sympy.Ne(prev_value, right))
+            else:
+                msg = f"Comparison {type(op).__name__} not implemented"
+                raise NotImplementedError(msg)
 
             prev_value = right
 
